@@ -847,6 +847,7 @@ func (lc *layerC) run(sc cScenario) {
 		var pre [2]*Ref // reference before the events of the latest instant (same-instant tolerance)
 		var lastT [2]time.Duration
 		var lastSent [2]*logEntry
+		var gotInEpoch [2]int // packets from the peer delivered since the current epoch began
 		for i := 0; i < 2; i++ {
 			w.sess[i] = sc.cfgs[i].session(wlink{w, i}, 10)
 			ref[i] = NewRef(sc.cfgs[i].Local, sc.cfgs[i].Remote, sc.cfgs[i].Required)
@@ -916,6 +917,9 @@ func (lc *layerC) run(sc cScenario) {
 				}
 				if e.Delivered {
 					y := e.To
+					if e.From >= 0 {
+						gotInEpoch[y]++
+					}
 					if e.T != lastT[y] {
 						pre[y] = cp(ref[y])
 						lastT[y] = e.T
@@ -959,6 +963,7 @@ func (lc *layerC) run(sc cScenario) {
 			}
 			bothUp := false
 			leftUp := false
+			gotInEpoch = [2]int{}
 			sample := func() {
 				time.Sleep(sampleStep)
 				synctest.Wait()
@@ -967,7 +972,10 @@ func (lc *layerC) run(sc cScenario) {
 				if bothUp && !up {
 					leftUp = true
 				}
-				bothUp = bothUp || up
+				// "stay Up" is demanded from the first instant at which both are Up and both have heard
+				// from the peer in this epoch: before that a detection time that started during the
+				// losses of the previous epoch may still end (legitimately).
+				bothUp = bothUp || (up && gotInEpoch[0] > 0 && gotInEpoch[1] > 0)
 			}
 			for k := 0; k < epochLen; k++ {
 				sample()
